@@ -77,6 +77,34 @@ def mutating(lst, x=0, acc=None):
     return (list(lst), list(acc))
 
 
+def _die_at_once():
+    import os
+    os._exit(17)
+
+
+class KillsItsLoader:
+    """an argument whose unpickling ends the process that unpickles it: the spawned child of a process worker dies while it is still starting up,
+    before it could report its identity"""
+    def __reduce__(self):
+        return (_die_at_once, ())
+
+
+def slow_square(x):
+    import time
+    time.sleep(0.15)
+    return x * x
+
+
+def labels_of(items=()):
+    """works on objects of a class this module does not know (defined by the caller's main script)"""
+    return [(i.label, len(i.values)) for i in items]
+
+
+def call(fn, *a, **k):
+    """calls a function this module does not know (defined by the caller's main script)"""
+    return fn(*a, **k)
+
+
 class NeedsArgs(Exception):
     """an exception class that cannot be rebuilt from its args on the receiving side"""
     def __init__(self, a, b):
